@@ -42,6 +42,18 @@ let () =
       let b = rd_nat () in let k = c13_rd_kind () in let ds = rd_list (rd_list (rd_list rd_z)) () in
       pr_result (fun s -> pr_list (pr_list (pr_list pr_z)) s.bw_emitted; pr_list (pr_list pr_z) (bw_pending s))
         (bw_run b k ds));
+  (* rows handed to the file after each append, then after finalize *)
+  reg "c13.trace" (fun () ->
+      let b = rd_nat () in let k = c13_rd_kind () in let ds = rd_list (rd_list (rd_list rd_z)) () in
+      let count s = List.fold_left (fun a x -> a + List.length x) 0 s.bw_emitted in
+      let rec go s ds acc = match ds with
+        | [] -> (match bw_finalize b s with
+                 | Ok s' -> Ok (List.rev (count s' :: acc))
+                 | Err e -> Err e)
+        | d :: r -> (match bw_append b k s d with
+                     | Ok s' -> go s' r (count s' :: acc)
+                     | Err e -> Err e) in
+      pr_result (pr_list pr_int) (go bw_init ds []));
   reg "c13.pure" (fun () ->
       let c = rd_nat () in let l = rd_list rd_z () in
       pr_list (pr_list pr_z) (ch_chunks c l); pr_list (pr_list pr_nat) (ch_ranges c l))
